@@ -12,7 +12,8 @@ From HclV Require Import Base.Prelude Cty.Values Cty.Convert Cty.Ops Eval.Impl E
                          Eval.UnknownSound_Conv Eval.UnknownSound_Conv2 Eval.UnknownSound_Ops
                          Eval.UnknownSound_Num Eval.UnknownSound_Cond Eval.UnknownSound_Eq Eval.UnknownSound_Fn
                          Eval.UnknownSound_Frag Eval.UnknownSound_Inv Eval.UnknownSound_Core
-                         Eval.UnknownSound_Call Eval.UnknownSound_Join.
+                         Eval.UnknownSound_Call Eval.UnknownSound_Join
+                         Eval.UnknownSound_Splat Eval.UnknownSound_For.
 Open Scope Z_scope.
 Local Strategy opaque [equals val_size unmark_deep deep_marks unify_n convert].
 Notation ev_ := (eval_with index).
@@ -33,8 +34,8 @@ Proof.
   - apply (si_tuple f es IH cA cC anA anC Fr R Ra KA KC).
   - apply (si_obj f items IH cA cC anA anC Fr R Ra KA KC).
   - apply (si_objkey f e force IH cA cC anA anC Fr R Ra KA KC).
-  - inversion Fr.
-  - inversion Fr.
+  - apply (si_for f kv vv e1 key e2 cond group IH cA cC anA anC Fr R Ra KA KC).
+  - apply (si_splat f e1 e2 IH cA cC anA anC Fr R Ra KA KC).
   - apply clean_S in KA as [_ KA']. cbn [eval_with fst]. unfold anon_rel in Ra.
     destruct anA as [x|], anC as [y|]; try contradiction; [tauto|discriminate KA'].
   - apply (si_bin f op e1 e2 IH cA cC anA anC Fr R Ra KA KC).
@@ -173,6 +174,46 @@ Proof.
     - reflexivity. }
   vm_compute in G. discriminate G.
 Qed.
+
+(* ---- side conditions of [clean] for SplatExpr and TemplateJoinExpr: why they are there --------------------------
+   Witness 3 (SplatExpr over a list, the per-element result has an unknown part of dynamic type): the
+   element type of the resulting LIST is taken from the first result (or, for an empty source, from
+   resultTy(): a probe with an unknown element), abstractly cty.DynamicPseudoType, concretely number.
+     x = [] : list(list(number)),  y = unknown(dynamic) :  x[*][y]  =  list(dynamic) []
+     x = [] : list(list(number)),  y = 0                :  x[*][y]  =  list(number) []
+     x = [[1]],                    y = unknown(dynamic) :  x[*][y]  =  list(dynamic) [unknown(dynamic)]
+     x = [[1]],                    y = 0                :  x[*][y]  =  list(number) [1]
+   The strict relation fails on the list's type tag, the relation with conversion (the property's
+   wording) holds: this is not a refutation of the property, it is the reason why [clean] asks for a
+   per-element result type without dynamic part (and a non-empty source) for list and set sources. *)
+Definition w_y : list Z := [121].
+Definition w3_expr : expr := ESplat (EScopeTrav w_x []) (EIndex EAnon (EScopeTrav w_y [])).
+Definition w3_ctx (xv yv : val) : ctx := [mkFrame (Some [(w_x, xv); (w_y, yv)]) None].
+Definition w3_empty : val := VList (TList TNum) [].
+Definition w3_one : val := VList (TList TNum) [VList TNum [VNum (nz 1)]].
+
+Lemma splat_list_dyn_elem_strict_refuted :
+  value (w3_ctx w3_empty dyn_val) w3_expr = (VList TDyn [], []) /\
+  value (w3_ctx w3_empty (VNum (nz 0))) w3_expr = (VList TNum [], []) /\
+  gsb (VList TDyn []) (VList TNum []) = false /\ gammab (VList TDyn []) (VList TNum []) = true /\
+  value (w3_ctx w3_one dyn_val) w3_expr = (VList TDyn [dyn_val], []) /\
+  value (w3_ctx w3_one (VNum (nz 0))) w3_expr = (VList TNum [VNum (nz 1)], []) /\
+  gsb (VList TDyn [dyn_val]) (VList TNum [VNum (nz 1)]) = false /\
+  gammab (VList TDyn [dyn_val]) (VList TNum [VNum (nz 1)]) = true.
+Proof. repeat split; vm_compute; reflexivity. Qed.
+Lemma w3_not_clean :
+  clean 4 (w3_ctx w3_empty dyn_val) None w3_expr = false /\ clean 4 (w3_ctx w3_one dyn_val) None w3_expr = false.
+Proof. split; vm_compute; reflexivity. Qed.
+
+(* Witness 4 (TemplateJoinExpr, model gap, NOT replayable from HCL text: the parser builds the node
+   over a for expression only): a null tuple of dynamic type.  Go panics ("TemplateJoinExpr got null
+   tuple"); the model answers unknown(string) without diagnostics, i.e. an unknown result from wholly
+   known inputs.  [clean] asks for a non-null tuple value. *)
+Definition w5_expr : expr := EJoin (EScopeTrav w_x []).
+Lemma join_null_tuple_model_gap :
+  value [mkFrame (Some [(w_x, VNull TDyn)]) None] w5_expr = (VUnk TStr rf_none, []) /\
+  clean 3 [mkFrame (Some [(w_x, VNull TDyn)]) None] None w5_expr = false.
+Proof. split; vm_compute; reflexivity. Qed.
 
 (* ---- a sub-fragment where "no error in the result" already means "no error anywhere" ---------------------------
    No conditional and no && / ||: every diagnostic of a sub-evaluation reaches the result, so the
@@ -343,7 +384,8 @@ Proof.
   - apply (acc_clean fuel e cC None Fr). rewrite EC. apply (diag_ok_intro _ H3 H4).
 Qed.
 
-(* ---- constructs outside the fragment: hand samples checked by computation (NOT covered by the theorem) -------- *)
+(* ---- hand samples for calls, splat, for and join, checked by computation (a sanity check of the model and of the
+   relation; these constructs are covered by the theorem since the fragment includes them) ----------------------- *)
 Module Samples.
   Definition funs := Some [([102], fn_first); ([105], fn_isnull); ([112], fn_pair); ([115], fn_sum); ([117], fn_upper)].
   Definition mk (v : val) : ctx := [mkFrame (Some [(w_x, v)]) funs].
@@ -389,6 +431,6 @@ Module Samples.
       (* template join *)
       (EJoin (EFor [] [118] X None V None false), ulist, nlist);
       (EJoin (EFor [] [118] X None V None false), VUnk (TList TNum) (rl 0 None false), nlist) ].
-  Example outside_fragment_samples_ok : forallb chk cases = true.
+  Example construct_samples_ok : forallb chk cases = true.
   Proof. vm_compute. reflexivity. Qed.
 End Samples.
